@@ -187,8 +187,10 @@ def run(pid, tier, seed):
         sts = stamps(rng, tier)
         nots = notations()
         # fallback zones: UTC, half-hour east, far west, and offsets strictly between -01:00 and 00:00 (sign without hours)
-        fallbacks = ([("+00:00", 0), ("-08:00", -480), ("+05:30", 330), ("-00:45", -45), ("-00:15", -15), ("+00:30", 30), ("+13:45", 825)] if tier == "thorough"
-                     else [("+00:00", 0), ("+05:30", 330), ("-00:45", -45)])
+        # (the option value itself in its documented spellings: +HH:MM, +HHMM, +HH, a zone name in either case)
+        fallbacks = ([("+00:00", 0), ("-08:00", -480), ("+05:30", 330), ("-00:45", -45), ("-00:15", -15), ("+00:30", 30), ("+13:45", 825),
+                      ("+0530", 330), ("-0800", -480), ("+09", 540), ("PST", -480), ("cest", 120), ("NPT", 345), ("Z", 0)] if tier == "thorough"
+                     else [("+00:00", 0), ("+0530", 330), ("-00:45", -45), ("PST", -480)])
         # ---- specification's answer (TLC) on a sample, and the oracle self-test
         sample = rng.sample(sts, min(len(sts), 400 if tier == "quick" else 4000))
         sj = []
@@ -259,7 +261,7 @@ def run(pid, tier, seed):
 
         def do(job):
             name, fbs, blob, exp = job
-            d = os.path.join(sc, "n", "%s_%s" % (name.replace(":", "_"), fbs.replace(":", "").replace("+", "p").replace("-", "m")))
+            d = os.path.join(sc, "n", "%s_%s" % (name.replace(":", "_"), fbs.replace(":", "c").replace("+", "p").replace("-", "m")))
             os.makedirs(d)
             with open(os.path.join(d, "n.log"), "w") as f:
                 f.write(blob)
